@@ -120,12 +120,14 @@ Theorem C19_single_rule_kind_pda_tm :
      npda_validate m mode = Err (Invalid k)) /\
   (forall m mode k, dpda_broken m mode k -> (forall k', dpda_broken m mode k' -> k' = k) ->
      dpda_validate_raw m mode = Err (Invalid k)) /\
-  (forall m k, tm_broken m k -> (forall k', tm_broken m k' -> k' = k) -> tm_validate m = Err (Invalid k)).
+  (forall m k, tm_broken m k -> (forall k', tm_broken m k' -> k' = k) -> tm_validate m = Err (Invalid k)) /\
+  (forall n m k, mntm_broken n m k -> (forall k', mntm_broken n m k' -> k' = k) -> mntm_validate n m = Err (Invalid k)).
 Proof.
-  split; [|split].
+  split; [|split; [|split]].
   - intros m mode k. exact (proj1 (pda_single_rule_kind m mode k)).
   - intros m mode k. exact (proj2 (pda_single_rule_kind m mode k)).
   - exact tm_single_rule_kind.
+  - exact mntm_single_rule_kind.
 Qed.
 Print Assumptions C19_single_rule_kind_pda_tm.
 
